@@ -1,1 +1,110 @@
-//! placeholder
+//! Exact models of library routines whose real implementations are
+//! intractable for CBMC at symbolic lengths (word-at-a-time UTF-8 validation
+//! with pointer-alignment arithmetic; LEB128 through `io::Read`/`io::Error`).
+//! Each model is proved equal to the real function by a solver harness
+//! (`s_*` harnesses, thorough tier of C12) on all inputs up to a stated size.
+
+/// Exact UTF-8 well-formedness (Unicode 15, Table 3-7): no overlongs, no
+/// surrogates, nothing above U+10FFFF, no truncated sequences.
+pub fn utf8_valid(v: &[u8]) -> bool {
+    let n = v.len();
+    let mut i = 0;
+    while i < n {
+        let b = v[i];
+        if b < 0x80 {
+            i += 1;
+            continue;
+        }
+        let (need, lo, hi): (usize, u8, u8) = if b >= 0xC2 && b <= 0xDF {
+            (1, 0x80, 0xBF)
+        } else if b == 0xE0 {
+            (2, 0xA0, 0xBF)
+        } else if (b >= 0xE1 && b <= 0xEC) || b == 0xEE || b == 0xEF {
+            (2, 0x80, 0xBF)
+        } else if b == 0xED {
+            (2, 0x80, 0x9F)
+        } else if b == 0xF0 {
+            (3, 0x90, 0xBF)
+        } else if b >= 0xF1 && b <= 0xF3 {
+            (3, 0x80, 0xBF)
+        } else if b == 0xF4 {
+            (3, 0x80, 0x8F)
+        } else {
+            return false;
+        };
+        if n - i <= need {
+            return false;
+        }
+        let c1 = v[i + 1];
+        if c1 < lo || c1 > hi {
+            return false;
+        }
+        let mut k = 2;
+        while k <= need {
+            let c = v[i + k];
+            if c < 0x80 || c > 0xBF {
+                return false;
+            }
+            k += 1;
+        }
+        i += need + 1;
+    }
+    true
+}
+
+const UTF8_ERR: Result<&'static str, core::str::Utf8Error> = core::str::from_utf8(&[0xff]);
+
+/// Model of `core::str::from_utf8`: exact on Ok/Err and on the Ok value. The
+/// `Utf8Error` payload (valid_up_to / error_len) is *not* modelled: every error
+/// is the error of `from_utf8(&[0xff])`. No property observes that payload.
+pub fn from_utf8_model(v: &[u8]) -> Result<&str, core::str::Utf8Error> {
+    if utf8_valid(v) {
+        Ok(unsafe { core::str::from_utf8_unchecked(v) })
+    } else {
+        match UTF8_ERR {
+            Err(e) => Err(e),
+            Ok(_) => unreachable!(),
+        }
+    }
+}
+
+/// Model of `watto::StringTable::read`: LEB128 length prefix at `offset`, then
+/// that many bytes of UTF-8. Exact on Ok/Err and on the Ok value; every error
+/// is reported as `OutOfBounds` (the crate never inspects the error kind: all
+/// call sites use `.ok()`, `let Ok(..) else`, `unwrap_or` or `is_ok`).
+pub fn strtab_read_model(string_bytes: &[u8], offset: usize) -> Result<&str, watto::ReadStringError> {
+    if offset > string_bytes.len() {
+        return Err(watto::ReadStringError::OutOfBounds);
+    }
+    let mut pos = offset;
+    let mut result: u64 = 0;
+    let mut shift: u32 = 0;
+    loop {
+        if pos >= string_bytes.len() {
+            // read_exact hits the end of the buffer
+            return Err(watto::ReadStringError::OutOfBounds);
+        }
+        let b = string_bytes[pos];
+        pos += 1;
+        if shift == 63 && b != 0x00 && b != 0x01 {
+            // leb128::read::Error::Overflow (after draining continuation bytes; still an error)
+            return Err(watto::ReadStringError::OutOfBounds);
+        }
+        result |= ((b & 0x7f) as u64) << shift;
+        if b & 0x80 == 0 {
+            break;
+        }
+        shift += 7;
+    }
+    let len = result as usize;
+    let rest = &string_bytes[pos..];
+    if len > rest.len() {
+        return Err(watto::ReadStringError::OutOfBounds);
+    }
+    let s = &rest[..len];
+    if utf8_valid(s) {
+        Ok(unsafe { core::str::from_utf8_unchecked(s) })
+    } else {
+        Err(watto::ReadStringError::OutOfBounds)
+    }
+}
